@@ -6,7 +6,10 @@ package spec/function_shapes.json records (generated deliberately, like known_sy
 order of first occurrence and a digest of the function's canonical text with those locals replaced by positional
 placeholders. When a function of the analysed tree has the same placeholder digest but other local names - i.e. it is
 alpha-equivalent to the recorded one - its locals are renamed back to the recorded names before anything else looks at it.
-Any other difference changes the digest and nothing is renamed: the digest is never a rule, only an aid."""
+Any other difference changes the digest; then (E14b) a recorded local that is no longer bound is matched with a new local
+that is bound from exactly the same expressions (all locals written `_`), if that match is unique both ways. A consistent
+renaming of a local never changes behaviour, whatever the match: the digest and the signatures are never rules, only aids
+that let the rules keep referring to locals by their recorded names."""
 import ast
 import hashlib
 import json
@@ -117,6 +120,68 @@ def shape(fn):
     return hashlib.sha1(text.encode()).hexdigest(), order
 
 
+def signatures(fn):
+    """{local: sorted binding signatures}: the canonical text of every expression the local is bound from (assignment value,
+    loop iterable, context manager, augmented operand) with all locals of the function written `_`."""
+    order = local_names(fn)
+    loc = set(order)
+
+    class Anon(ast.NodeTransformer):
+        def visit_Name(self, n):
+            return ast.copy_location(ast.Name(id="_", ctx=n.ctx), n) if n.id in loc else n
+
+    def text(e):
+        import copy as _copy
+        try:
+            e2 = _copy.copy(e)
+        except Exception:
+            e2 = e
+        # (a shallow structural copy: rebuild the expression without touching parent links)
+        def clone(x):
+            if isinstance(x, list):
+                return [clone(y) for y in x]
+            if not isinstance(x, ast.AST):
+                return x
+            new = type(x)()
+            for f_ in x._fields:
+                if hasattr(x, f_):
+                    setattr(new, f_, clone(getattr(x, f_)))
+            return new
+        return ast.unparse(Anon().visit(clone(e)))[:200]
+
+    def targets(t):
+        if isinstance(t, ast.Name):
+            return [t.id]
+        if isinstance(t, (ast.Tuple, ast.List)):
+            return [x for e in t.elts for x in targets(e)]
+        if isinstance(t, ast.Starred):
+            return targets(t.value)
+        return []
+
+    sigs = {}
+    for n in ast.walk(fn):
+        if isinstance(n, ast.Assign):
+            for t in n.targets:
+                names = targets(t)
+                for i, nm in enumerate(names):
+                    kind = "assign" if isinstance(t, ast.Name) else "unpack%d/%d" % (i, len(names))
+                    sigs.setdefault(nm, set()).add("%s:%s" % (kind, text(n.value)))
+        elif isinstance(n, ast.AugAssign) and isinstance(n.target, ast.Name):
+            sigs.setdefault(n.target.id, set()).add("aug%s:%s" % (type(n.op).__name__, text(n.value)))
+        elif isinstance(n, (ast.For, ast.comprehension)):
+            names = targets(n.target)
+            for i, nm in enumerate(names):
+                sigs.setdefault(nm, set()).add("for%d/%d:%s" % (i, len(names), text(n.iter)))
+        elif isinstance(n, ast.With):
+            for it in n.items:
+                if it.optional_vars is not None:
+                    for nm in targets(it.optional_vars):
+                        sigs.setdefault(nm, set()).add("with:%s" % text(it.context_expr))
+        elif isinstance(n, ast.ExceptHandler) and n.name:
+            sigs.setdefault(n.name, set()).add("except:%s" % (text(n.type) if n.type is not None else ""))
+    return {k: sorted(v) for k, v in sigs.items() if k in loc}
+
+
 def load():
     try:
         return json.loads(SPEC.read_text())
@@ -144,4 +209,56 @@ def undo_renames(repo):
             t2._root = f.node
             t2.visit(f.node)
             done.append((q, m))
+            continue
+        if h == r["digest"] or "sigs" not in r:
+            continue
+        # E14b: the function was edited AND some locals were renamed. A recorded local that is no longer bound is matched
+        # with a new local that is bound from exactly the same expressions (locals anonymised); the match must be unique
+        # in both directions, and the recorded name must not be in use for anything else in the function.
+        cur = signatures(f.node)
+        ref = r["sigs"]
+        used = {n.id for n in ast.walk(f.node) if isinstance(n, ast.Name)} | _params(f.node)
+        missing = [k for k in r["locals"] if k not in cur and k not in used and k in ref]
+        extra = [k for k in cur if k not in r["locals"]]
+        m = {}
+        for k in missing:
+            cands = [e for e in extra if cur[e] == ref[k]]
+            rivals = [k2 for k2 in missing if ref[k2] == ref[k]]
+            if len(cands) == 1 and len(rivals) == 1:
+                m[cands[0]] = k
+        if m:
+            t2 = _Rename(m)
+            t2._root = f.node
+            t2.visit(f.node)
+            done.append((q, m))
+        # a recorded local that only named a numeric constant (`INC = 0.01`) and is gone because the constant now lives
+        # elsewhere (module / class constant, written in place): the name is bound again, to the same value
+        used = {n.id for n in ast.walk(f.node) if isinstance(n, ast.Name)} | _params(f.node)
+        for k in r["locals"]:
+            sg = ref.get(k, [])
+            if k in used or len(sg) != 1 or not sg[0].startswith("assign:"):
+                continue
+            try:
+                val = ast.literal_eval(sg[0][len("assign:"):])
+            except Exception:
+                continue
+            if not isinstance(val, (int, float)) or isinstance(val, bool) or val in (0, 1, -1, 2):
+                continue
+            hits = [n for n in ast.walk(f.node) if isinstance(n, ast.Constant) and type(n.value) is type(val) and n.value == val]
+            if not hits:
+                continue
+
+            class _Bind(ast.NodeTransformer):
+                def visit_Constant(self, n):
+                    if type(n.value) is type(val) and n.value == val:
+                        return ast.copy_location(ast.Name(id=k, ctx=ast.Load()), n)
+                    return n
+            body0 = f.node.body
+            i0 = 1 if body0 and isinstance(body0[0], ast.Expr) and isinstance(body0[0].value, ast.Constant) and isinstance(body0[0].value.value, str) else 0
+            f.node.body = body0[:i0] + [_Bind().visit(st) for st in body0[i0:]]
+            asg = ast.Assign(targets=[ast.Name(id=k, ctx=ast.Store())], value=ast.Constant(value=val))
+            ast.copy_location(asg, f.node.body[i0] if len(f.node.body) > i0 else f.node)
+            ast.fix_missing_locations(asg)
+            f.node.body.insert(i0, asg)
+            done.append((q, {repr(val): k}))
     return done
